@@ -5,14 +5,30 @@ package main
 
 import (
 	"encoding/json"
+	"time"
 
 	gg "verif/harness/graphgen"
 )
+
+// Wall-clock budget of the shrinker (round 6). A candidate of a hub-shaped case costs a whole concurrent /
+// first-calls phase, and a racy failure reproduces only now and then: 400 candidates per failing case, several
+// failing cases per run, took more than two minutes on the two seeded changes that need overlapping runs. One
+// shrink now ends after shrinkPerCase, all shrinks of one harness process together after shrinkTotal; the case
+// reported is the smallest one found so far (minimisation is a convenience of the replay, never part of the verdict).
+const (
+	shrinkPerCase = 5 * time.Second
+	shrinkTotal   = 12 * time.Second
+)
+
+var shrinkSpent time.Duration
 
 func cloneCase(c *c01case) *c01case {
 	b, _ := json.Marshal(c)
 	var d c01case
 	_ = json.Unmarshal(b, &d)
+	if d.Input == nil && c.Input != nil && c.Input.Kind == "nil" {
+		d.Input = gg.NilMap() // "input": null leaves the pointer nil (see Decode)
+	}
 	return &d
 }
 
@@ -174,10 +190,16 @@ func (engine) Shrink(c any, stillFails func(any) bool) any {
 		return c
 	}
 	budget := 400
-	for progress := true; progress && budget > 0; {
+	t0 := time.Now()
+	defer func() { shrinkSpent += time.Since(t0) }()
+	outOfTime := func() bool {
+		el := time.Since(t0)
+		return el > shrinkPerCase || shrinkSpent+el > shrinkTotal
+	}
+	for progress := true; progress && budget > 0 && !outOfTime(); {
 		progress = false
 		for _, d := range candidates(cur) {
-			if budget <= 0 {
+			if budget <= 0 || outOfTime() {
 				break
 			}
 			budget--
